@@ -152,7 +152,7 @@ func drawTokens(t *rapid.T, ti *terminfo.Terminfo, w, h int) []c02tok {
 		case nx.Kind == "rune":
 			inner := nx.accept
 			merged.accept = func(g string) bool { return inner(stripAlt(g)) && g != stripAlt(g) }
-		case nx.Kind == "mouse" || nx.Kind == "focus" || nx.Kind == "clip":
+		case nx.Kind == "mouse" || nx.Kind == "focus" || nx.Kind == "clip" || nx.Kind == "paste":
 			// an ESC directly before a report: input order demands that an
 			// Esc key, if delivered at all, comes before the report
 			merged.pair = true
@@ -199,8 +199,14 @@ func drawC02(t *rapid.T) *c02plan {
 		if legacy != "" {
 			alphabet = append(alphabet, "\x81\x83\x5c\x40\xa4\xa2\xb0\xa1\x8e\x8f\xe0\x81\x30\x81\x30\xfe\x39\x82\xa0\x88\xea"...)
 		}
+		junk := []string{"\x1b]52;c;YQ\x1b\\", "\x1b]52;c;!!!!\x07", "\x1b]52;c;YWJj\x1b\\", "\x1b]52;c;=\x07", "\x1b[<0;1;1", "\x1b[M"}
 		n := rapid.IntRange(1, 40).Draw(t, "nbytes")
 		for i := 0; i < n; i++ {
+			if rapid.IntRange(0, 19).Draw(t, "junk") == 0 {
+				// an OSC 52 reply whose payload is not valid padded base64, a truncated report
+				p.Bytes = append(p.Bytes, rapid.SampledFrom(junk).Draw(t, "junkstr")...)
+				continue
+			}
 			if rapid.IntRange(0, 3).Draw(t, "rawbyte") == 0 {
 				p.Bytes = append(p.Bytes, rapid.Byte().Draw(t, "b"))
 			} else {
@@ -363,9 +369,13 @@ func runC02(t *rapid.T) {
 			i := 0
 			for _, tk := range p.Toks {
 				if tk.pair {
-					if i < len(a.evs) && a.evs[i] == keyDesc(tcell.KeyEsc, 0) {
-						i++
+					// the ESC before a report is a keypress of its own: it is
+					// delivered (as Esc), before the report - not swallowed
+					if i >= len(a.evs) || a.evs[i] != keyDesc(tcell.KeyEsc, 0) {
+						ok = false
+						break
 					}
+					i++
 				}
 				if i >= len(a.evs) || !tk.accept(a.evs[i]) {
 					ok = false
